@@ -123,7 +123,8 @@ def obj_any_type(name, pt):
     return xrender.obj_type(name, pt)
 
 
-def build(d):
+def build(d, reverse=False):
+    """reverse: hand the containers to the constructor leaf-first (descendants before their bases, users before nested containers)"""
     from space_packet_parser.xtce import containers, definitions, parameters
     with warnings.catch_warnings():
         warnings.simplefilter("ignore")
@@ -144,7 +145,8 @@ def build(d):
         return conts[cn]
     for cn in d["corder"]:
         mk(cn)
-    return definitions.XtcePacketDefinition([conts[c] for c in d["corder"]], root_container_name=d["root"])
+    order = list(reversed(d["corder"])) if reverse else d["corder"]
+    return definitions.XtcePacketDefinition([conts[c] for c in order], root_container_name=d["root"])
 
 
 def share_equal_parts(dobj):
@@ -188,6 +190,8 @@ def make(d, route):
             dobj = build(d)
             share_equal_parts(dobj)
             return dobj
+        if len(route) > 1 and route[1] == "rev":
+            return build(d, reverse=True)
         return build(d)
     if route[0] == "file":           # a document on disk, loaded as it is: ("file", path, prefix or "", root)
         from space_packet_parser.xtce.definitions import XtcePacketDefinition
